@@ -750,7 +750,10 @@ class MemorizedFunc(Logger):
                 self.store_backend.get_cached_func_code([self.func_id])
             )
         except (IOError, OSError):  # some backend can also raise OSError
-            if not self.store_backend.contains_results([self.func_id]):
+            contains_results = getattr(self.store_backend, "contains_results", None)
+            if contains_results is None or not contains_results([self.func_id]):
+                # (store backends that do not derive from StoreBackendMixin
+                # cannot tell: as before, take it that nothing is stored)
                 # Nothing was stored for this function yet
                 self._write_func_code(func_code, first_line)
                 return False
